@@ -7,6 +7,8 @@ REAL domain, real code from LLVM IR, symbolic positions/velocities/masses/G:
     mass uniformly;
   * the diagnostics reb_simulation_energy / angular_momentum / com return the textbook sums for every N_active and
     testparticle_type;
+  * the force-gradient ("jerk") velocity correction of the modified-kick EOS schemes conserves linear momentum for arbitrary
+    accelerations, and angular momentum with the accelerations the real force routine computes;
   * TRACE and MERCURIUS keep the centre of mass in a side variable: one real step with HAVOC sub-steps and a nondeterministic
     accept/reject verdict moves the inertial centre of mass by exactly dt * V_com and returns the initial total momentum;
   * reb_collision_resolve_merge conserves mass, momentum and the centre of mass, and (track_energy_offset) books exactly
@@ -205,6 +207,71 @@ def run_merge(u):
         ob.witness("path", assum, axioms=dom.axioms)
     return rep
 
+def run_jerk(u):
+    """the force-gradient ('jerk') velocity correction of the modified-kick EOS schemes: for ARBITRARY accelerations in the particle
+    slots (free symbols) the pairwise updates cancel in total linear momentum; with the accelerations the real force routine
+    computed, total angular momentum is unchanged as well"""
+    rep = Report(); dom = Real(); ctx = PathCtx()
+    N, na, tpt, true_acc = u['N'], u['na'], u['tpt'], u.get('true_acc', False)
+    label = "jerk kick N=%d N_active=%d tpt=%d %s " % (N, na, tpt, 'gravitational accelerations' if true_acc else 'arbitrary accelerations')
+    I, sim, V, G = mk(dom, ctx, N)
+    L = build.layout()
+    sim.set('gravity', L.enumerators['REB_GRAVITY_BASIC']); sim.set('N_active', na if na != N else 0xffffffff); sim.set('testparticle_type', tpt)
+    AV = {}
+    if true_acc: I.call('@reb_calculate_acceleration', [sim.ptr])
+    else:
+        for i in range(N):
+            for a in ('ax', 'ay', 'az'):
+                AV[(i, a)] = dom.fresh('%s%d' % (a, i)); sim.particle(i).set(a, AV[(i, a)])
+    v = dom.fresh('v')
+    I.call('@reb_calculate_and_apply_jerk', [sim.ptr, v])
+    X = [[V[(i, c)] for c in ('x', 'y', 'z')] for i in range(N)]; M = [V[(i, 'm')] for i in range(N)]
+    DV = [[dom.z(sim.particle(i).get(c)) - V[(i, c)] for c in ('vx', 'vy', 'vz')] for i in range(N)]
+    ob = Obligations(rep, Prover(t_inproc_ms=20000, use_external=u.get('ext', False), t_ext_s=60), label)
+    assum = [m >= 0 for m in M] + [G > 0] + [b != 0 for b in dom.divs]
+    def vals_of(model):
+        vals = native_vals(model, V, G); vals['v'] = float(model_value(model, v) or 0.0) or 0.01
+        for (i, a), t in AV.items(): vals['%s%d' % (a, i)] = float(model_value(model, t) or 0.0)
+        return vals
+    def on_sat(model):
+        vals = vals_of(model); ok, detail = native_jerk(u, vals)
+        return ok, 'C04:jerk', detail, dict(kind='jerk', unit=u, vals=vals)
+    for k in range(3):
+        ob.prove("sum m dv_%s == 0" % 'xyz'[k], sum((M[i] * DV[i][k] for i in range(N)), z3.RealVal(0)) == 0, assum, axioms=dom.axioms, on_sat=on_sat, domain='REAL')
+    if true_acc:
+        tq = [sum((M[i] * cross(X[i], DV[i])[k] for i in range(N)), z3.RealVal(0)) for k in range(3)]
+        for k in range(3):
+            ob.prove("sum m (x cross dv)_%s == 0" % 'xyz'[k], tq[k] == 0, assum, axioms=dom.axioms, on_sat=on_sat, domain='REAL')
+    rep.paths += 1; rep.add_interp(I)
+    def wit(model):
+        bad, detail = native_jerk(u, vals_of(model))
+        if bad: raise RuntimeError("native jerk kick does not conserve momentum where all obligations were discharged: " + detail)
+    ob.witness("inputs", assum + [m > 0 for m in M], axioms=dom.axioms, replay=wit)
+    return rep
+
+def native_jerk(u, vals):
+    ns = native_setup(u, vals)
+    try:
+        N = u['N']
+        if u.get('true_acc'): ns.call('reb_calculate_acceleration')
+        else:
+            for i in range(N):
+                for a in ('ax', 'ay', 'az'): ns.particle(i).set(a, vals['%s%d' % (a, i)])
+        v0 = [[ns.particle(i).get(c) for c in ('vx', 'vy', 'vz')] for i in range(N)]
+        ns.call('reb_calculate_and_apply_jerk', ctypes.c_double(vals['v']))
+        dv = [[ns.particle(i).get(c) - v0[i][k] for k, c in enumerate(('vx', 'vy', 'vz'))] for i in range(N)]
+        P_ = [sum(vals['m%d' % i] * dv[i][k] for i in range(N)) for k in range(3)]
+        scale = sum(abs(vals['m%d' % i] * dv[i][k]) for i in range(N) for k in range(3)) + 1e-300
+        bad = max(abs(p) for p in P_) > 1e-9 * scale
+        if u.get('true_acc'):
+            X = [[vals['%s%d' % (c, i)] for c in 'xyz'] for i in range(N)]
+            T_ = [sum(vals['m%d' % i] * cross(X[i], dv[i])[k] for i in range(N)) for k in range(3)]
+            tscale = sum(abs(vals['m%d' % i] * c_) for i in range(N) for c_ in cross(X[i], dv[i])) + 1e-300
+            bad = bad or max(abs(t) for t in T_) > 1e-8 * tscale
+        return bad, "native jerk kick: sum m dv = %r (scale %.3g)" % (P_, scale)
+    finally:
+        ns.free()
+
 def run_comframe(u):
     """hybrid integrators keep the centre of mass in a side variable (TRACE: ri_trace.com_pos/com_vel; MERCURIUS: DH slot 0) that
     only the com step advances.  One real step is executed with the Kepler / interaction / jump / encounter sub-steps replaced by
@@ -285,10 +352,11 @@ def native_comframe(integ):
         ns.free()
 
 def worker(u):
-    return {'kick': run_kick, 'leapfrog': run_leapfrog, 'diag': run_diag, 'merge': run_merge, 'comframe': run_comframe}[u['what']](u)
+    return {'kick': run_kick, 'leapfrog': run_leapfrog, 'diag': run_diag, 'merge': run_merge, 'comframe': run_comframe, 'jerk': run_jerk}[u['what']](u)
 
 def replay(data):
     if data.get('kind') == 'comframe': return native_comframe(data['integ'])
+    if data.get('kind') == 'jerk': return native_jerk(data['unit'], data['vals'])
     return native_kick(data['unit'], data['vals'])
 
 def main():
@@ -303,6 +371,11 @@ def main():
         for na in range(0, N + 1):
             for tpt in (0, 1): us.append(dict(what='diag', N=N, na=na, tpt=tpt))
     for N in ((2,) if tier == 'quick' else (2, 3)): us.append(dict(what='leapfrog', N=N, ext=True))
+    for N in ((2, 3) if tier == 'quick' else (2, 3, 4)):
+        us.append(dict(what='jerk', N=N, na=N, tpt=0))
+        if N >= 3: us.append(dict(what='jerk', N=N, na=N - 1, tpt=1))
+    us.append(dict(what='jerk', N=2, na=2, tpt=0, true_acc=True, ext=True))
+    if tier == 'thorough': us.append(dict(what='jerk', N=3, na=3, tpt=0, true_acc=True, ext=True))
     for N in ((3,) if tier == 'quick' else (2, 3, 4)):
         us.append(dict(what='comframe', integ='TRACE', N=N)); us.append(dict(what='comframe', integ='TRACE', N=N, peri=True)); us.append(dict(what='comframe', integ='MERCURIUS', N=N))
     for tr in (0,):
